@@ -254,6 +254,10 @@ Definition read_records (s : lim) (start end_ : N) : res (list lrec) * lim :=
     | Panic => (Panic, s)
     end.
 
+Definition set_split (s : lim) (k : N) : lim :=
+  mkLim (l_file s) (l_indexs s) (l_start s) (l_icur s) (l_flen s) (l_dcur s) (l_cnt s) (l_lterm s)
+        (l_cic s) (l_seek s) (l_dpos s) (N.max k (l_start s)).
+
 (** init: [file] = None for a file of length 0.  [limit] = header.data_area_index of a fresh file
     (4096 in the source; the verification hook can lower it to reach rollover quickly). *)
 Definition init (file : option lfile) (limit start pre_term split : N) : res lim :=
@@ -270,20 +274,24 @@ Definition init (file : option lfile) (limit start pre_term split : N) : res lim
   res_bind (move_to_end f (last_ix ixs) start) (fun '(dcur, cnt) =>
   if h_interval (f_hdr f) =? 0 then Panic
   else
+    (* repaired (defect 8c): last_term is recovered BEFORE split-off is applied, so that a last
+       record hidden by split-off still yields its term *)
     let s := mkLim f ixs start icur flen dcur cnt pre_term (cnt mod h_interval (f_hdr f)) false dcur
-                   (N.max split start) in
-    if 0 <? cnt then
-      let e := end_index s in
-      match read_records s (e - 1) e with
-      | (Ok logs, s') =>
-          match rev logs with
-          | x :: _ => Ok (mkLim (l_file s') (l_indexs s') (l_start s') (l_icur s') (l_flen s') (l_dcur s')
-                                (l_cnt s') (r_term x) (l_cic s') (l_seek s') (l_dpos s') (l_split s'))
-          | [] => Ok s'
-          end
-      | (_, s') => Ok s'
-      end
-    else Ok s)).
+                   start in
+    let s1 :=
+      if 0 <? cnt then
+        let e := end_index s in
+        match read_records s (e - 1) e with
+        | (Ok logs, s') =>
+            match rev logs with
+            | x :: _ => mkLim (l_file s') (l_indexs s') (l_start s') (l_icur s') (l_flen s') (l_dcur s')
+                              (l_cnt s') (r_term x) (l_cic s') (l_seek s') (l_dpos s') (l_split s')
+            | [] => s'
+            end
+        | (_, s') => s'
+        end
+      else s in
+    Ok (set_split s1 split))).
 
 Inductive wmark := WSuccess | WSuccessToEnd | WFailure | WIndexEqualError.
 
@@ -353,6 +361,3 @@ Definition strip_log_to (s : lim) (k : N) : res lim :=
 Definition get_last_index_info (s : lim) : N * N :=
   ((if end_index s =? 0 then 0 else end_index s - 1), l_lterm s).
 
-Definition set_split (s : lim) (k : N) : lim :=
-  mkLim (l_file s) (l_indexs s) (l_start s) (l_icur s) (l_flen s) (l_dcur s) (l_cnt s) (l_lterm s)
-        (l_cic s) (l_seek s) (l_dpos s) (N.max k (l_start s)).
